@@ -1202,6 +1202,12 @@ func (c *Context) quantize(d, v *Decimal, exp int32) Condition {
 			}
 		} else {
 			nc := c.WithPrecision(uint32(p))
+			// The rounding below is relative to exponent 0, not to exp, so the
+			// caller's exponent range must not take part in it (a tight range
+			// would make it subnormal or overflow). Quantize checks the final
+			// result against the caller's range itself.
+			nc.MinExponent = MinExponent
+			nc.MaxExponent = MaxExponent
 
 			// The idea here is that the resulting d.Exponent after rounding will be 0. We
 			// have a number of, say, 5 digits, but p (our precision) above is set at, say,
